@@ -40,8 +40,8 @@ func NewCubicallyInterpolatedMapping(relativeAccuracy float64) (*CubicallyInterp
 		return nil, errors.New("The relative accuracy must be between 0 and 1.")
 	}
 	gamma := math.Pow((1+relativeAccuracy)/(1-relativeAccuracy), 10*math.Ln2/7) // > 1
-	m, _ := NewCubicallyInterpolatedMappingWithGamma(gamma, 0)
-	return m, nil
+	// gamma is rounded to 1 if the relative accuracy is too small (below about 1e-16).
+	return NewCubicallyInterpolatedMappingWithGamma(gamma, 0)
 }
 
 func NewCubicallyInterpolatedMappingWithGamma(gamma, indexOffset float64) (*CubicallyInterpolatedMapping, error) {
